@@ -1187,6 +1187,30 @@ Proof.
   destruct (Hm d Hd) as [_ Hl]. unfold usb_pkt. apply usb_render_shaped. rewrite zeros_length. unfold zlen. lia.
 Qed.
 
+Lemma usb_produced_accepted p : produced enc_usb p -> exists a, parse_usb p = Ok (Some a).
+Proof.
+  intros (pgn & src & dst & prio & msgs & pk & Hh & Hm & He & Hin).
+  pose proof (build_header_range _ _ _ _ Hh) as Hr. unfold frames_ok in Hm. rewrite Forall_forall in Hm.
+  unfold enc_usb in He.
+  rewrite (enc_check_ok _ _ _ _ Hh) in He. cbn [bind] in He. rewrite to_le4_ok in He by assumption. cbn [bind] in He.
+  rewrite (map_result_ok _ (usb_pkt (build_header pgn src dst prio))) in He
+    by (intros d Hd; apply enc_usb1_render; destruct (Hm d Hd) as [_ Hl]; exact Hl).
+  injection He as <-. apply in_map_iff in Hin. destruct Hin as (d & <- & Hd).
+  destruct (Hm d Hd) as [_ Hl]. unfold usb_pkt. eexists. apply parse_usb_render; [lia|].
+  rewrite zeros_length. unfold zlen. lia.
+Qed.
+
+(* a packet decode_usb hands on has a valid checksum byte *)
+Lemma parse_usb_valid p a : parse_usb p = Ok (Some a) -> checksum p = nth 19 p 0.
+Proof.
+  unfold parse_usb. destruct p as [|x [|y t]]; try discriminate.
+  - destruct (negb (x =? 170)); discriminate.
+  - destruct (negb (x =? 170)); [discriminate|]. destruct (negb (y =? 85)); [discriminate|].
+    destruct (negb (zlen (x :: y :: t) =? 20)); [discriminate|].
+    destruct (checksum (x :: y :: t) =? nth 19 (x :: y :: t) 0) eqn:E; cbn [negb]; [|discriminate].
+    intros _. apply Z.eqb_eq. exact E.
+Qed.
+
 Lemma yd_produced p : produced enc_yd p ->
   exists body, p = body ++ [13; 10] /\ forallb (fun c => negb (c =? 10) && negb (c =? 13)) body = true.
 Proof.
@@ -1209,11 +1233,12 @@ Qed.
 (* C06_sizes *)
 Theorem packet_sizes p :
   (produced enc_ebyte p -> length p = 13%nat) /\
-  (produced enc_usb p -> length p = 20%nat) /\
+  (produced enc_usb p -> length p = 20%nat /\ checksum p = nth 19 p 0) /\
   (produced enc_yd p -> exists body, p = body ++ [13; 10] /\
                           forallb (fun c => negb (c =? 10) && negb (c =? 13)) body = true).
 Proof.
-  split; [apply ebyte_produced | split; [|apply yd_produced]]. intros H. destruct (usb_produced p H) as [Hl _]. exact Hl.
+  split; [apply ebyte_produced | split; [|apply yd_produced]]. intros H. destruct (usb_produced p H) as [Hl _].
+  split; [exact Hl|]. destruct (usb_produced_accepted p H) as [a Ha]. exact (parse_usb_valid p a Ha).
 Qed.
 
 (* C06_split *)
